@@ -21,9 +21,10 @@ KIND_DTYPE = {"b1": "?"}
 KIND_CODE = {"i1": 1, "i2": 2, "i4": 3, "i8": 4, "u1": 5, "u2": 6, "u4": 7, "u8": 8, "f4": 9, "f8": 10, "b1": 0x21, "c8": 0x08000c, "c16": 0x10000d}
 WRAPPERS = {"Int8": "i1", "Int16": "i2", "Int32": "i4", "Int64": "i8", "Uint8": "u1", "Uint16": "u2", "Uint32": "u4", "Uint64": "u8",
             "SingleFloat": "f4", "DoubleFloat": "f8"}
-NAMES = ["g", "Group", "it's", "a/b", "", "ünï", "日本", "c", "chan 1", "'"]
+NAMES = ["g", "Group", "it's", "a/b", "", "ünï", "日本", "c", "chan 1", "'", "rack'/'slot", "raw'/", "TDSm", "x TDSm y"]
 INT_EDGES = [0, 1, -1, 2 ** 31 - 1, 2 ** 31, -2 ** 31, -2 ** 31 - 1, 2 ** 63 - 1, 2 ** 63, -2 ** 63, 2 ** 64 - 1, 127, 128, -128, -129, 255, 256, 32767,
-             32768, -32768, -32769, 65535, 65536, 2 ** 32 - 1, 2 ** 32]
+             32768, -32768, -32769, 65535, 65536, 2 ** 32 - 1, 2 ** 32,
+             0x6d534454, 0x68534454]      # the little-endian bytes of these two spell the segment tags TDSm / TDSh
 
 
 def dt(kind):
@@ -52,7 +53,7 @@ def rand_prop_value(rnd):
     if k == "b":
         return ("b", rnd.random() < 0.5)
     if k == "s":
-        return ("s", "".join(rnd.choice("ab ü日\U0001F600'/") for _ in range(rnd.randint(0, 6))))
+        return ("s", rnd.choice(["".join(rnd.choice("ab ü日\U0001F600'/") for _ in range(rnd.randint(0, 6))), "TDSm", "aTDSmb", "nul\x00", "\x00"]))
     if k == "d":
         return ("d", rand_micros(rnd), rnd.choice(["datetime64", "datetime"]))
     if k == "t":
@@ -115,7 +116,9 @@ def rand_data(rnd):
         kind = rnd.choice(KINDS)
         return ("K", kind, rand_array(rnd, kind, n))
     if k == "S":
-        return ("S", ["".join(rnd.choice("ab ü日\U0001F600") for _ in range(rnd.randint(0, 4))) for _ in range(n)], rnd.choice(["list", "object-array"]))
+        form = rnd.choice(["list", "object-array"])
+        tail = ["", "", "", "\x00", "\x00\x00"] if form == "object-array" else [""]      # a list of str becomes a '<U' array, which cannot hold trailing NULs
+        return ("S", ["".join(rnd.choice("ab ü日\U0001F600") for _ in range(rnd.randint(0, 4))) + rnd.choice(tail) for _ in range(n)], form)
     if k == "D":
         return ("D", [rand_micros(rnd) for _ in range(n)], rnd.choice(["datetime64-array", "datetime-list"]))
     if k == "L":
